@@ -40,7 +40,7 @@ def cases(tier):
             forms = [('hom', [2] * d), ('inhom', [2] * d)]
         for form, dims in forms:
             for inter in ('2d', 'r1', 'r2'):
-                for fam in ('real', 'complex', 'skew', 'defective', 'diag'):
+                for fam in ('real', 'complex', 'skew', 'defective', 'diag', 'cplxcoupling'):
                     for r0 in (1, 2, 'max'):
                         for h in (0.1, 0.5):
                             for nz in (0, 2):
@@ -101,6 +101,13 @@ def gen_components(rng, dims, form, inter, fam, struct=None):
             S.append(np.diag(rng.standard_normal(n)))
             Li = np.stack([np.diag(rng.standard_normal(n)) for _ in range(r)], axis=2)
             Mi = np.stack([np.diag(rng.standard_normal(n)) for _ in range(r)], axis=0)
+            L.append(0.7 * Li); M.append(Mi); I.append(np.eye(n))
+            continue
+        if fam == 'cplxcoupling':
+            # real single-site terms and identities, complex couplings (hopping with phases)
+            S.append(rng.standard_normal((n, n)))
+            Li = rng.standard_normal((n, n, r)) + 1j * rng.standard_normal((n, n, r))
+            Mi = rng.standard_normal((r, n, n)) + 1j * rng.standard_normal((r, n, n))
             L.append(0.7 * Li); M.append(Mi); I.append(np.eye(n))
             continue
         if fam == 'skew':
@@ -213,7 +220,7 @@ def run_case(case, seed):
     He, Ho, Ks = dense_generators(S, L, I, M, dims)
     H = He + Ho
     rk = max_ranks(dims) if case['r0'] == 'max' else [1] + [min(case['r0'], m) for m in max_ranks(dims)[1:-1]] + [1]
-    xc = fam in ('complex', 'skew')
+    xc = fam in ('complex', 'skew', 'cplxcoupling')
     if case.get('xdt') == 'other':
         xc = not xc
     x0t = tt_from(rand_cores(rng, dims, [1] * d, rk, xc, 'nonneg' if nz == 1 else 'gauss'))
